@@ -849,6 +849,8 @@ def _deton_bracket(S, fd, g: CFG, cx: Ctx, c: ast.Call):
     if len(loops) != 1:
         return False, "scan loop not found", None
     b = match(loops[0].test, "__LO < vmax", cx)
+    if b is None and any(eqx(loops[0].test, x) for x in ("True", "1")) and _holds_under(g, at, (f"{lo} < vmax",), cx):
+        b = {"LO": lo}          # `while True:` with the scan condition tested (and left by `break`) inside the loop
     if b is None or b["LO"] != lo:
         return False, f"lower end `{lo}` is not the scan position of the loop `{n(loops[0].test)}`", None
     defs_hi = [x for x in g.nodes if isinstance(x, ast.Assign) and isinstance(x.targets[0], ast.Name) and x.targets[0].id == hi]
@@ -1034,6 +1036,7 @@ def r01_4(chk: Check):
     fs, g, cx = sw.fs, sw.g, sw.cx
     evals = set(g.stmts_calling("wallPressure"))
     flags = ("self.successWallPressure", "self.successTemperatureProfile")
+    J = _Judged(sw)
     cnt = 0
     for x in sw.labels:
         a = kwarg(x.value, "success", 0)
@@ -1048,7 +1051,8 @@ def r01_4(chk: Check):
             for e in evals:
                 if x in g.reachable(e) and not g.must_pass(e, x, lambda q: q in readers):
                     # ... unless another evaluation lies in between on that path (then that one is the relevant one)
-                    if not g.must_pass(e, x, lambda q: q in readers or (q in evals and q is not e)):
+                    # ... or the report does not rely on this evaluation at all (none of its outputs is tested or reported at this exit)
+                    if not g.must_pass(e, x, lambda q: q in readers or (q in evals and q is not e)) and (J.outputs(e) & J.about(x)):
                         missing.append(fl.split(".")[-1])
                         break
         label = _label_of(kwarg(x.value, "solutionType", 1), cx)[0]
@@ -1336,7 +1340,167 @@ def r01_8(chk: Check):
            "through the non-saturated branch of the test)", ok, key="saturation|not-success")
     chk.floor("R01.8", 2)
 
+def _stored_names(st) -> set:
+    out = set()
+    for t in (st.targets if isinstance(st, ast.Assign) else [st.target] if isinstance(st, (ast.AnnAssign, ast.AugAssign)) else []):
+        out |= {x.id for x in ast.walk(t) if isinstance(x, ast.Name) and isinstance(x.ctx, ast.Store)}
+    return out
+
+
+class _Judged:
+    """which data a decision in solveWall is about, and which locals hold outputs of a pressure evaluation"""
+
+    def __init__(self, sw):
+        self.sw, self.g, self.cx = sw, sw.g, sw.cx
+        self.evals = set(sw.g.stmts_calling("wallPressure"))
+        self.setters = set(sw.setters) | set(sw.velset)
+        self._dom = {}
+
+    @staticmethod
+    def names(e) -> set:
+        return {x.id for x in ast.walk(e) if isinstance(x, ast.Name) and isinstance(x.ctx, ast.Load)}
+
+    def outputs(self, e) -> set:
+        """locals holding (parts of) the result of evaluation statement e: its targets, and whatever is unpacked / indexed / copied from them"""
+        out = set(_stored_names(e))
+        changed = True
+        while changed:
+            changed = False
+            for q in self.g.nodes:
+                if q is e or not isinstance(q, (ast.Assign, ast.AnnAssign)) or q.value is None or self.g.kind.get(q) == "def":
+                    continue
+                v = q.value
+                plain = all(isinstance(y, (ast.Name, ast.Subscript, ast.Tuple, ast.List, ast.IfExp, ast.Constant, ast.Slice, ast.Load, ast.Store, ast.UnaryOp, ast.USub,
+                                           ast.Compare, ast.Is, ast.IsNot, ast.Eq, ast.NotEq)) for y in ast.walk(v))
+                if plain and (self.names(v) & out) and any(d is e or (isinstance(d, ast.AST) and _stored_names(d) & out) for nm in self.names(v) & out
+                                                          for d in self.g.reaching_defs(q, nm)):
+                    new = _stored_names(q) - out
+                    if new:
+                        out |= new
+                        changed = True
+        return out
+
+    def dominating(self, node):
+        if id(node) not in self._dom:
+            self._dom[id(node)] = _dominating_tests(self.g, node)
+        return self._dom[id(node)]
+
+    def about(self, R, depth: int = 0) -> set:
+        """names of the data the decision taken at node R is about: what its own expression and the tests it depends on read, and what the
+        result setters of the same exit (no pressure evaluation in between) are given"""
+        g = self.g
+        is_eval = lambda q: q in self.evals
+        if isinstance(R, (ast.Assign, ast.AnnAssign)) and depth < 3 and len(_stored_names(R)) == 1:
+            # a flag saved in a local: the decision is taken where that local is read
+            f = next(iter(_stored_names(R)))
+            out = set()
+            for u in g.nodes:
+                if u is not R and g.kind.get(u) != "def" and isinstance(u, ast.AST) and f in self.names(u) and R in g.reaching_defs(u, f):
+                    out |= self.about(u, depth + 1) - {f}
+            return out
+        out = self.names(R)
+        for t, _pol in self.dominating(R):
+            out |= self.names(self.cx.resolve(t))
+        for q in self.setters:
+            if g.reaches([q], R, avoid=is_eval) or g.reaches([R], q, avoid=is_eval):
+                out |= self.names(q)
+        return out
+
+
+def r01_9(chk: Check):
+    """The convergence flags are overwritten by every pressure evaluation.  A read of a flag therefore judges the LAST evaluation executed
+    before it; that evaluation must be the one whose outputs the decision is about (the pressure tested by the guards of the read, or the
+    data handed to the result setters of that exit) -- not a later evaluation at another velocity."""
+    sw = _SolveWall(chk)
+    fs, g, cx = sw.fs, sw.g, sw.cx
+    J = _Judged(sw)
+    evals = J.evals
+    flags = ("self.successWallPressure", "self.successTemperatureProfile")
+    cnt = 0
+    for R in g.nodes:
+        if not isinstance(R, ast.AST) or g.kind.get(R) in ("def", "handler") or not any(_reads(R, fl, cx) for fl in flags):
+            continue
+        last = [e for e in evals if e is not R and g.reaches([e], R, avoid=lambda q, e=e: q in evals and q is not e)]
+        if not last:
+            continue
+        cnt += 1
+        about = J.about(R)
+        bad = [e for e in last if not (J.outputs(e) & about)]
+        chk.ob("R01.9", fs.where(R), "the convergence flags read here belong to the pressure evaluation the decision is about: the last evaluation executed "
+               "before the read produced the pressure tested / the data reported at this exit", not bad,
+               "; ".join(f"line {e.lineno}: `{n(e)[:70]}` is the last evaluation on a path to this read but none of its outputs is tested or reported here" for e in bad),
+               key=f"flag-pairing|{cnt}")
+    if cnt < 2:
+        raise AnchorMissing("solveWall: reads of the convergence flags after a pressure evaluation not found")
+    chk.floor("R01.9", 2)
+
+
+def r01_10(chk: Check):
+    """The detonation scan may stop before the pressure at the top of its window was evaluated only when no stable root can lie beyond the last
+    probed point (pressure there positive) or when a solution was already stored; otherwise the classification after the loop would read the
+    pressure of an interior point as the pressure at the top of the window."""
+    S = chk.src
+    fd = normalised(S, S.func(f"{EOM}.findWallVelocityDetonation"))
+    chk.touch(fd.name)
+    g, cx = CFG(fd.node), Ctx(S, fd)
+    loops = [w for w in own_nodes(fd.node) if isinstance(w, ast.While) and any(True for _ in calls_in(w, "wallPressure"))]
+    if len(loops) != 1:
+        raise AnchorMissing("findWallVelocityDetonation: the scanning loop (while ...: self.wallPressure(...)) not found")
+    w = loops[0]
+    # roles: the list of solutions L (classification under `len(L) == 0`), the pressure P at the last probed point (`pIni > 0 > P`), the last
+    # probed velocity V (starts at vmin)
+    L = P = V = None
+    for guards, st in walk_guarded(fd.node):
+        for t, pol in guards:
+            if isinstance(t, tuple):
+                continue
+            b = match(t, "len(__L) == 0", cx)
+            if b and pol:
+                L = b["L"]
+        if isinstance(st, ast.Assign):
+            b = match(st, "__V = vmin")
+            if b and st.lineno < w.lineno:
+                V = b["V"]
+    for t in g.nodes:
+        if g.kind.get(t) == "test":
+            b = match(t, "__A > 0 > __P", cx) or match(t, "__A > 0 and __P < 0", cx)
+            if b:
+                P = b["P"]
+    if None in (L, P, V):
+        raise AnchorMissing(f"findWallVelocityDetonation: roles not found (solutions list {L}, last pressure {P}, last probed velocity {V})")
+    classify = [t for t in g.nodes if g.kind.get(t) == "test" and eqx(t, f"len({L}) == 0", cx)]
+    in_loop = {id(y) for y in ast.walk(w)}
+    appends = [q for q in g.nodes if id(q) in in_loop and isinstance(q, ast.Expr) and has(q, f"{L}.append")]
+
+    def conjuncts(t, pol):
+        e, pol = _positive(t, pol, cx)
+        if pol and isinstance(e, ast.BoolOp) and isinstance(e.op, ast.And):
+            return [c for v in e.values for c in conjuncts(v, True)]
+        if not pol and isinstance(e, ast.BoolOp) and isinstance(e.op, ast.Or):
+            return [c for v in e.values for c in conjuncts(v, False)]
+        return [(e, pol)]
+
+    cnt = 0
+    for guards, st in walk_guarded(w):
+        if not isinstance(st, ast.Break):
+            continue
+        if any(isinstance(l_, (ast.For, ast.While)) and l_ is not w and any(y is st for y in ast.walk(l_)) for l_ in ast.walk(w)):
+            continue            # leaves an inner loop only
+        cnt += 1
+        cs = [c for t, pol in guards if not isinstance(t, tuple) for c in conjuncts(t, pol)]
+        positive = any((pol and eqx(e, f"{P} > 0")) or (not pol and eqx(e, f"{P} <= 0")) for e, pol in cs)
+        at_top = any((pol and (eqx(e, f"{V} >= vmax") or eqx(e, f"{V} == vmax"))) or (not pol and eqx(e, f"{V} < vmax")) for e, pol in cs)
+        stored = bool(appends) and g.must_pass(w.test, st, lambda q: q in appends)
+        chk.ob("R01.10", fd.where(st), "the detonation scan stops early only when the pressure at the last probed point is positive (no stable root can follow), "
+               "when the top of the window was probed, or right after a solution was stored", positive or at_top or stored,
+               f"guards: {[n(t)[:60] for t, _ in guards if not isinstance(t, tuple)]}", key=f"scan-exit|{cnt}")
+    ok = len(classify) >= 1 and (eqx(w.test, f"{V} < vmax") or any(eqx(w.test, x) for x in ("True", "1")))
+    chk.ob("R01.10", fd.where(w), "the scan continues while the last probed velocity is below the top of the window", bool(ok), n(w.test), key="scan-condition")
+    if cnt < 2:
+        raise AnchorMissing("findWallVelocityDetonation: the early exits of the scanning loop not found")
+    chk.floor("R01.10", 3)
+
 
 def rules(chk: Check) -> None:
-    for grp in (r01_7, r01_8, r01_1, r01_2, r01_3, r01_4, r01_5, r01_6):
+    for grp in (r01_7, r01_8, r01_1, r01_2, r01_3, r01_4, r01_5, r01_6, r01_9, r01_10):
         chk.stage(grp, chk)
